@@ -108,6 +108,38 @@ class NeedDup(Exception):
     pass
 
 
+class _RenameLocals(ast.NodeTransformer):
+    """prefix the parameters and locals of an inlined helper (no capture of the caller's names)"""
+
+    def __init__(self, prefix, local):
+        self.prefix, self.local = prefix, local
+
+    def visit_Name(self, n):
+        if n.id in self.local and n.id != "self":
+            n.id = self.prefix + n.id
+        return n
+
+
+def resolved_return(fn):
+    """the expression a function returns, with single-assignment temporaries substituted (so that
+    `x = f(a); return x` and `return f(a)` are the same fact); None if it does not end in a return"""
+    body = body_of(fn)
+    if not body or not isinstance(body[-1], ast.Return) or body[-1].value is None:
+        return None
+    assigns = {}
+    for st in ast.walk(fn):
+        if isinstance(st, ast.Assign) and len(st.targets) == 1 and isinstance(st.targets[0], ast.Name):
+            assigns.setdefault(st.targets[0].id, []).append(st.value)
+
+    class Sub(ast.NodeTransformer):
+        def visit_Name(self, n):
+            vs = assigns.get(n.id)
+            if isinstance(n.ctx, ast.Load) and vs and len(vs) == 1:
+                return self.visit(ast.parse(ast.unparse(vs[0]), mode="eval").body)
+            return n
+    return ast.unparse(Sub().visit(ast.parse(ast.unparse(body[-1].value), mode="eval").body))
+
+
 SENTINEL = "(*!FAIL!*)"
 
 
@@ -151,6 +183,9 @@ class Engine:
         self.aux = []            # auxiliary definitions (loop bodies) to emit before the function
         self.nloops = 0
         self.cur_name = "gen"
+        self.loopfin = []        # what `continue` evaluates to: the accumulator of the running loop
+        self.inlining = []       # names of the helpers being inlined (no recursion)
+        self.ninline = 0
 
     # ------------------------------------------------------------------ helpers
     def newname(self, stem):
@@ -185,13 +220,13 @@ class Engine:
         if isinstance(e, ast.Constant):
             c = e.value
             if isinstance(c, bool):
-                return V("true" if c else "false", "B")
+                return V("true" if c else "false", "B", py=c)
             if isinstance(c, int):
                 return V("(%d)" % c, "Z")
             if c is None:
                 return V("None", "none")
             if isinstance(c, str):
-                return V("<str>", "str", py=c)
+                return V("", "str", py=c)
             fail("constant %r" % (c,), e)
         if isinstance(e, ast.Name):
             if e.id in env:
@@ -227,6 +262,8 @@ class Engine:
             return V("(%s %s %s)" % (a.t, "+" if isinstance(e.op, ast.Add) else "-", b.t), "Z")
         if isinstance(e, ast.IfExp):
             return self.ifexp(e, env, W)
+        if isinstance(e, (ast.ListComp, ast.GeneratorExp)):
+            return self.comprehension(e, env, W)
         if isinstance(e, ast.Tuple):
             parts = [self.force(self.expr(x, env, W), env, W) for x in e.elts]
             return V("(%s)" % ", ".join(p.t for p in parts), "tuple", py=parts)
@@ -248,6 +285,16 @@ class Engine:
     def call(self, e, env, W):
         f = e.func
         recv = None
+        if isinstance(f, ast.Call) and isinstance(f.func, ast.Name) and f.func.id == "getattr" \
+                and len(f.args) == 2 and not f.keywords:
+            # getattr(obj, <constant name>)(...) is obj.<name>(...)
+            nm = self.expr(f.args[1], env, W)
+            if nm.ty != "str" or not isinstance(nm.py, str) or not nm.py.isidentifier():
+                fail("getattr with a name that is not a known constant", e)
+            new = ast.copy_location(ast.Call(
+                func=ast.copy_location(ast.Attribute(value=f.args[0], attr=nm.py, ctx=ast.Load()), f),
+                args=e.args, keywords=e.keywords), e)
+            return self.call(new, env, W)
         if isinstance(f, ast.Name):
             key = ("fn", f.id)
         elif isinstance(f, ast.Attribute) and isinstance(f.value, ast.Name) and f.value.id == "self":
@@ -260,9 +307,121 @@ class Engine:
         else:
             key = None
         h = self.calls.get(key)
+        if h is None and key is not None and key[0] in ("self", "fn"):
+            # a helper extracted into the same class / its base classes / the same module: inline it
+            fn = self.find_callable(key[1], key[0] == "self")
+            if fn is not None:
+                return self.inline_call(fn, e, env, W, key[0] == "self")
         if h is None:
             fail("call of %s" % (key,), e)
         return h(e, recv, env, W)
+
+    # ------------------------------------------------------------------ interprocedural: inlining
+    def find_callable(self, name, is_method):
+        """FunctionDef of a helper `self.<name>` / module-level `<name>` of the translated source
+        (subclasses know where to look), or None"""
+        return None
+
+    def enter_helper(self, fn):
+        return None
+
+    def leave_helper(self, token):
+        return
+
+    def inline_call(self, fn, call, env, W, is_method):
+        """Translate a call of a helper by translating its body in place: parameters are bound by
+        name to the arguments (defaults from the signature), the helper's locals get a fresh prefix,
+        object state (cells) is shared with the caller.  The body must be straight-line code, loops
+        and non-returning ifs, optionally ending in `return <expr>`."""
+        if fn.name in self.inlining or len(self.inlining) > 4:
+            fail("recursive helper %s" % fn.name, call)
+        if fn.decorator_list:
+            fail("decorated helper %s" % fn.name, call)
+        self.ninline += 1
+        prefix = "h%d_" % self.ninline
+        names, defaults, kw = sig_of(fn)
+        if kw:
+            fail("helper %s takes **%s" % (fn.name, kw), call)
+        if not is_method and fn.args.args and fn.args.args[0].arg == "self":
+            fail("module-level helper with a self parameter", call)
+        b = bind(call, names, fn.name)
+        local = set(names) | {n.id for n in ast.walk(fn) if isinstance(n, ast.Name)
+                              and isinstance(n.ctx, ast.Store)}
+        body = [_RenameLocals(prefix, local).visit(ast.parse(ast.unparse(st)).body[0])
+                for st in body_of(fn)]
+        env2 = {k: v for k, v in env.items() if k[0] in "$#" or k == "@fitted"}
+        for p in names:
+            node = b.get(p, defaults.get(p))
+            if node is None:
+                fail("call of the helper %s gives no value for %s" % (fn.name, p), call)
+            v = self.force(self.expr(node, env, W), env, W)
+            self.assign_name(prefix + p, v, call, env2, W)
+        ret = None
+        if body and isinstance(body[-1], ast.Return):
+            ret, body = body[-1].value, body[:-1]
+        self.inlining.append(fn.name)
+        token = self.enter_helper(fn)
+        saved_loopfin, self.loopfin = self.loopfin, []
+        try:
+            self.seq(body, env2, W)
+            v = None
+            if ret is not None and not (isinstance(ret, ast.Name) and ret.id == "self"):
+                v = self.expr(ret, env2, W)
+        finally:
+            self.loopfin = saved_loopfin
+            self.leave_helper(token)
+            self.inlining.pop()
+        for k in env2:
+            if k[0] == "$" or k == "@fitted":
+                env[k] = env2[k]
+        return v
+
+    def seq(self, stmts, env, W):
+        """straight-line translation INTO the wrapper list W (used for inlined helpers): simple
+        statements, loops, ifs that do not return"""
+        for i, st in enumerate(stmts):
+            if isinstance(st, ast.Pass) or is_doc(st):
+                continue
+            if isinstance(st, ast.For):
+                un = self.unrolled(st, env)
+                if un is not None:
+                    self.seq(un, env, W)
+                    continue
+                if st.orelse:
+                    fail("for/else", st)
+                self.loop(st, env, W)
+                continue
+            if isinstance(st, ast.If):
+                c = self.cond(st.test, env, W)
+                if c["k"] == "static":
+                    self.seq(st.body if c["v"] else st.orelse, env, W)
+                    continue
+                if self.has_exit(st.body) or self.has_exit(st.orelse):
+                    fail("return / raise / continue inside an `if` of an inlined helper", st)
+                env_t, env_e = dict(env), dict(env)
+                if c["k"] == "opt" and c["var"]:
+                    (env_t if c["then_some"] else env_e)[c["var"]] = c["ity"]
+                try:
+                    parts = self.if_merge_parts(c, st, env, env_t, env_e)
+                except NeedDup:
+                    fail("an `if` of an inlined helper may raise", st)
+                if parts is not None:
+                    W.append(("let", parts[0], parts[1]))
+                continue
+            if isinstance(st, (ast.Return, ast.Raise, ast.With, ast.Continue, ast.Break)):
+                fail("statement not supported inside an inlined helper", st)
+            self.simple(st, env, W)
+
+    def comprehension(self, e, env, W):
+        """[elt for target in iter] / generator expression: a loop collecting elt"""
+        if len(e.generators) != 1 or e.generators[0].ifs or e.generators[0].is_async:
+            fail("comprehension shape", e)
+        g = e.generators[0]
+        fake = ast.copy_location(ast.For(target=g.target, iter=g.iter, body=[], orelse=[]), e)
+        v = self.loop(fake, env, W, comp=e.elt)
+        n = self.newname("res")
+        W.append(("let", n, v.t))
+        return V(n, v.ty)
 
     def ifexp(self, e, env, W):
         c = self.cond(e.test, env, W)
@@ -345,9 +504,13 @@ class Engine:
             return {"k": "bool", "t": "(" + (" && " if is_and else " || ").join(terms) + ")"}
         if isinstance(t, ast.Name) and t.id in self.SPECIALISED_FALSE:
             return {"k": "static", "v": False}
+        if isinstance(t, ast.Name) and env.get(t.id) == "B" and isinstance(env.get("@py:" + t.id), bool):
+            return {"k": "static", "v": env["@py:" + t.id]}      # bound to a boolean constant
         v = self.force(self.expr(t, env, W), env, W)
         if v.ty == "B":
             return {"k": "bool", "t": v.t}
+        if v.ty == "Z":                           # truthiness of an integer (`if len(y):`)
+            return {"k": "bool", "t": "(negb (%s =? 0))" % v.t}
         fail("condition of type %s" % v.ty, t)
 
     CMP = {ast.Gt: ">?", ast.GtE: ">=?", ast.Lt: "<?", ast.LtE: "<=?", ast.Eq: "=?"}
@@ -372,10 +535,17 @@ class Engine:
         if isinstance(s, ast.If):
             return self.if_stmt(s, rest, env, fin)
         if isinstance(s, ast.For):
+            un = self.unrolled(s, env)
+            if un is not None:
+                return self.block(un + rest, env, fin)
             if s.orelse:
                 fail("for/else", s)
             self.loop(s, env, W)
             return nest(W, self.block(rest, env, fin))
+        if isinstance(s, ast.Continue):
+            if not self.loopfin:
+                fail("continue outside a translated loop", s)
+            return self.loopfin[-1](env)
         if isinstance(s, ast.With):
             return self.with_stmt(s, rest, env, fin)
         if isinstance(s, ast.Return):
@@ -385,6 +555,32 @@ class Engine:
             return self.cur_fail()
         self.simple(s, env, W)
         return nest(W, self.block(rest, env, fin))
+
+    def unrolled(self, s, env):
+        """`for x in (<constants>): body` -> the body once per constant (a dispatch loop over a
+        literal tuple is an if-chain); None when the iterable is not a tuple of constants"""
+        it = s.iter
+        consts = None
+        if isinstance(it, (ast.Tuple, ast.List)) and it.elts \
+                and all(isinstance(x, ast.Constant) for x in it.elts):
+            consts = [x.value for x in it.elts]
+        elif isinstance(it, ast.Name) and env.get(it.id) == "tuple" and env.get("@py:" + it.id) \
+                and all(p.ty == "str" for p in env["@py:" + it.id]):
+            consts = [p.py for p in env["@py:" + it.id]]
+        if consts is None:
+            return None
+        if not isinstance(s.target, ast.Name) or s.orelse or len(consts) > 16:
+            fail("loop over a tuple of constants: shape", s)
+        for n in ast.walk(ast.Module(body=s.body, type_ignores=[])):
+            if isinstance(n, (ast.Continue, ast.Break)):
+                fail("continue / break in a loop over a tuple of constants", s)
+        out = []
+        for c in consts:
+            out.append(ast.copy_location(ast.Assign(
+                targets=[ast.Name(id=s.target.id, ctx=ast.Store())],
+                value=ast.copy_location(ast.Constant(value=c), s), lineno=s.lineno), s))
+            out += [ast.parse(ast.unparse(b)).body[0] for b in s.body]
+        return out
 
     def simple(self, s, env, W):
         if isinstance(s, ast.Expr) and isinstance(s.value, ast.Call):
@@ -440,7 +636,7 @@ class Engine:
     def has_exit(stmts):
         for s in stmts:
             for n in ast.walk(s):
-                if isinstance(n, (ast.Return, ast.Raise)):
+                if isinstance(n, (ast.Return, ast.Raise, ast.Continue)):
                     return True
         return False
 
@@ -475,6 +671,14 @@ class Engine:
         return out, vis
 
     def if_merge(self, c, s, rest, env, env_t, env_e, fin):
+        parts = self.if_merge_parts(c, s, env, env_t, env_e)
+        if parts is None:                        # e.g. `if update_params: warn(...)`: no effect
+            return self.block(rest, env, fin)
+        return "let %s :=\n%s in\n%s" % (parts[0], parts[1], self.block(rest, env, fin))
+
+    def if_merge_parts(self, c, s, env, env_t, env_e):
+        """an `if` whose branches do not exit, as `let <assigned variables> := if .. in`:
+        -> (pattern, term), env updated; None when the branches assign nothing visible"""
         saved_bound = self.bound
         self.failtext.append(None)               # any use of the fail text -> NeedDup
         try:
@@ -496,8 +700,8 @@ class Engine:
         finally:
             self.failtext.pop()
             self.bound = saved_bound
-        if not muts:                             # e.g. `if update_params: warn(...)`: no effect
-            return self.block(rest, env, fin)
+        if not muts:
+            return None
         et, ee = ends
         for n in muts:
             if et.get(vis[n]) != ee.get(vis[n]):
@@ -506,8 +710,7 @@ class Engine:
             env[vis[n]] = et[vis[n]]
             self.bound.append(n)
         self.merge_meta(env, et, ee, s)
-        return "let %s :=\n%s in\n%s" % (pat, self.choose(c, paren(a), paren(b)),
-                                        self.block(rest, env, fin))
+        return pat, self.choose(c, paren(a), paren(b))
 
     def merge_meta(self, env, et, ee, s):
         """reconcile '@' entries of the branch environments (subclasses with aliases override)"""
@@ -533,6 +736,7 @@ class Engine:
             lets = self.bind_target(s.target, src, envb)
             Wb = [("let", p, t) for p, t in lets]
             self.failtext.append(failt)
+            self.loopfin.append(fin_text)
             try:
                 if comp is None:
                     inner = self.block(body, envb, lambda e: fin_text(e))
@@ -543,6 +747,7 @@ class Engine:
                     inner = nest(Wc, fin_text(envb))
             finally:
                 self.failtext.pop()
+                self.loopfin.pop()
             return nest(Wb, inner)
         # pass 1: loop-carried variables, may the body raise?
         self.bound = []
